@@ -100,6 +100,12 @@ impl Visitor<Diagnostic> for SymbolTable<'_, Id, DummyNode> {
         node.recurse_visit(self)
     }
 
+    fn visit_edge_var_decl(&mut self, node: &EdgeVarDecl) -> Result<Self::Value, Diagnostic> {
+        // A variable declared with an edge (R_EDGE, F_EDGE) is a declared variable too
+        self.add(&node.identifier, DummyNode {});
+        node.recurse_visit(self)
+    }
+
     fn visit_named_variable(
         &mut self,
         node: &ironplc_dsl::textual::NamedVariable,
